@@ -128,7 +128,7 @@ def run(ctx):
     cube_cases = er.gen_cube_cases(ctx.rng, tier)
     index_cases = er.gen_index_cases(ctx.rng, tier)
     claims = info.get("claims", [])
-    ntrace_c, ntrace_i = (80, 150) if tier == "quick" else (400, 1000)
+    ntrace_c, ntrace_i = (200, 300) if tier == "quick" else (700, 1500)
     res_t = _run_runtime(catii, cube_cases[:ntrace_c] + index_cases[:ntrace_i], claims, pkg_dir, trace=True)
     res_u = _run_runtime(catii, cube_cases[ntrace_c:] + index_cases[ntrace_i:], claims, pkg_dir, trace=False)
     findings = res_t["findings"] + res_u["findings"]
